@@ -231,6 +231,28 @@ def run(ctx):
             if nrefs != 2:
                 res.violations.append(vlib.Violation("a valid for-each-ref line of %d bytes is not read as one reference" % (len(longname) + 60), inp,
                                                      expected={"rc": 0, "reference_count": 2}, observed={"rc": rc, "reference_count": nrefs, "stderr": err[:200].decode("latin1")}))
+        # ... and a for-each-ref line is split into exactly the fields git wrote: a name that ends in (or starts its last
+        # component with) a Unicode white-space character, a name holding two blanks' worth of odd bytes — shown by --show-refs
+        # byte for byte as git lists them
+        sc = S.Scenario()
+        b = sc.add({"kind": "blob", "data": b"x"})
+        t = sc.add({"kind": "tree", "entries": [(0o100644, b"f", b)]})
+        c = sc.add({"kind": "commit", "tree": t, "parents": []})
+        odd = [b"refs/heads/main", b"refs/heads/main\xc2\xa0", b"refs/heads/rel\xe3\x80\x80", b"refs/tags/\xe2\x80\xa8v1", b"refs/heads/nl\xc2\x85", b"refs/heads/a\xe1\x9a\x80",
+               b"refs/heads/tab-free\xe2\x80\x83\xe2\x80\x83", b"refs/heads/\xef\xbb\xbfbom", b"refs/notes/x\xe2\x80\xa9"]
+        for n in odd:
+            sc.refs.append((n, c))
+        sc.compute()
+        d = os.path.join(scratch, "oddrefs")
+        gitdir = sc.materialise(d, pack_refs=True)
+        chk = subprocess.run(["git", "--git-dir", gitdir, "for-each-ref", "--format=%(refname)"], stdout=subprocess.PIPE, stderr=subprocess.PIPE, env=S.clean_env())
+        listed = [l for l in chk.stdout.split(b"\n") if l]
+        rc, out, err = S.run_sizer(ctx["bins"]["sizer"], d, ["--json", "--no-progress", "--show-refs"])
+        shown = [l[2:] for l in err.split(b"\n") if l.startswith(b"+ ") or l.startswith(b"  ")]
+        res.case(("reference-names-verbatim", len(listed)), True)
+        if rc != 0 or sorted(shown) != sorted(listed):
+            res.violations.append(vlib.Violation("the reference names read from git for-each-ref are not the names git listed", {"references": [n.decode("latin1") for n in listed]},
+                                                 expected=[n.decode("latin1") for n in sorted(listed)], observed={"rc": rc, "names": [n.decode("latin1") for n in sorted(shown)]}))
     finally:
         shutil.rmtree(scratch, ignore_errors=True)
     # every listing cut short (git dying, or ending cleanly, part-way through what it writes), with paths and reference names
